@@ -92,6 +92,20 @@ class LockProxy:
     def __exit__(self, *a):
         self.release()
 
+    def __getattr__(self, name):
+        # whatever else the real object offers (a Condition's wait / notify_all, an RLock's internals, ...) goes to it unchanged
+        real = object.__getattribute__(self, "real")
+        attr = getattr(real, name)
+        if name in ("wait", "wait_for"):
+            def waiting(*a, **k):
+                self.owner = None  # waiting gives the lock up; it is ours again when the call returns
+                try:
+                    return attr(*a, **k)
+                finally:
+                    self.owner = threading.get_ident()
+            return waiting
+        return attr
+
 
 def make_ensure_hook(orig):
     def hooked(self, level_number, *extra, **kwextra):
